@@ -46,6 +46,13 @@ def refused_calls_leave_no_trace(run, cfgs, nprng):
         if c_["style"] == "centered":
             taps[0][-1] = 0.0
         makers.append(("si", c_, (lambda c_=c_, taps=taps: si_model.make_si(c_, taps, use_power=True, use_log=False)), c_["D"], c_["S"]))
+    # (centered computers that start with samples to skip: a refused call must not consume any of them)
+    for (S_, M_) in ((3, 9), (4, 11)):
+        L_ = M_ + S_ - 1
+        c_ = dict(style="centered", S=S_, M=M_, T=M_ // 2, D=L_, left=-(M_ // 2), length=M_)
+        taps = [list(nprng.randint(-3, 4, size=M_).astype(float) + 0.5)]
+        taps[0][-1] = 0.0
+        makers.append(("si", c_, (lambda c_=c_, taps=taps: si_model.make_si(c_, taps, use_power=True, use_log=False)), c_["D"], c_["S"]))
     for (kind, cfg, mk, L, S) in makers:
         x = nprng.randn(3 * L + S + 2)
         for k1 in (0, 1, L // 2 + 1, L + S):
@@ -66,6 +73,15 @@ def refused_calls_leave_no_trace(run, cfgs, nprng):
                         pass
                 if not used.started:
                     run.violation({"kind": kind + "_refused_call_ended_the_utterance", "cfg": cfg, "fed": k1})
+                # a chunk of another float type than the utterance's: where the computer refuses it (the short-integration
+                # one does, by documented design) the refusal leaves no trace either; where it is accepted there is
+                # nothing to compare
+                if other_dt != np.float64:
+                    try:
+                        used.compute_chunk(offered[:3])
+                        continue
+                    except ValueError:
+                        pass
                 outs_u.append(used.compute_chunk(x[k1:k1 + S + 1]))
                 outs_c.append(clean.compute_chunk(x[k1:k1 + S + 1]))
                 outs_u.append(used.finalize())
@@ -229,7 +245,9 @@ def si_histories(run, tier, rng):
         # (single samples first: the first DFT block of the probe then still holds whatever the buffer held before)
         probe = [("chunk", 1)] * (D + S) + [("chunk", D), ("chunk", 0), ("chunk", S + 1), ("finalize",)]
         for h in hists:
-            comp = si_model.make_si(c, taps, use_power=True, use_log=False)
+            # (window taps that single precision cannot hold: rounding anything the instance keeps to the precision of one
+            # utterance would show in the next)
+            comp = si_model.make_si(c, taps, window=stubs.ThirdsRamp(), use_power=True, use_log=False)
             rec = si_model.SiRecorder(comp)
             inprog = False
             for op in h:
@@ -291,7 +309,7 @@ def si_histories(run, tier, rng):
             if inprog:
                 rec.call("finalize")
             xs = nprng.randint(-4, 5, size=sum(o[1] for o in probe if o[0] == "chunk")).astype(np.float64) + 0.25
-            fresh = si_model.make_si(c, taps, use_power=True, use_log=False)
+            fresh = si_model.make_si(c, taps, window=stubs.ThirdsRamp(), use_power=True, use_log=False)
             used_vals, fresh_vals, p = [], [], 0
             refused = None
             for op in probe:
